@@ -185,49 +185,26 @@ func InstrMethodKey(instr ssa.CallInstruction) fn.Optional[string] {
 
 // FnReadsFrom returns true if an instruction in fn reads from val.
 //
-//gocyclo:ignore
+// Any use of val as an operand counts as a read (call and defer arguments, phi nodes, returns, conversions to
+// interfaces, index and slice operations, closure bindings, ...), except the use as the destination of a store,
+// which is a write.
 func FnReadsFrom(fn *ssa.Function, val ssa.Value) bool {
+	var operands []*ssa.Value
 	for _, blk := range fn.Blocks {
 		for _, instr := range blk.Instrs {
-			switch instr := instr.(type) {
-			case *ssa.UnOp:
-				if instr.X == val {
-					return true
-				}
-			case *ssa.BinOp:
-				if instr.X == val || instr.Y == val {
-					return true
-				}
-			case *ssa.Store:
+			if store, isStore := instr.(*ssa.Store); isStore {
 				// Special store
-				switch addr := instr.Addr.(type) {
-				case *ssa.FieldAddr:
-					if addr.X == val {
-						return true
-					}
-				}
-
-				if instr.Val == val {
+				if addr, isFieldAddr := store.Addr.(*ssa.FieldAddr); isFieldAddr && addr.X == val {
 					return true
 				}
-			case *ssa.MapUpdate:
-				if instr.Value == val {
+				if store.Val == val {
 					return true
 				}
-			case *ssa.Send:
-				if instr.X == val {
-					return true
-				}
-			case *ssa.Field:
-				if instr.X == val {
-					return true
-				}
-			case *ssa.FieldAddr:
-				if instr.X == val {
-					return true
-				}
-			case *ssa.Convert:
-				if instr.X == val {
+				continue
+			}
+			operands = instr.Operands(operands[:0])
+			for _, operand := range operands {
+				if operand != nil && *operand == val {
 					return true
 				}
 			}
